@@ -40,9 +40,9 @@ theorem generated_types_modelled :
 
 /-- the NORMALISED structure of the source is the one the model mirrors: typed-buffer signatures by
 position, the three kernels (native form, or the repaired subtraction), the C functions used, what
-each public wrapper does before entering its kernel (the modelled validation predicates in the
-modelled order — further predicates and any chain of helpers are accepted —, the kernel call and
-the returned expression) and the metric-name map.  Renames, comments, docstrings, message texts,
+each public wrapper does (exactly the modelled validation predicates in the modelled order, through
+any chain of helpers; no further predicate, no effect statement; then the kernel call and the
+returned expression) and the metric-name map.  Renames, comments, docstrings, message texts,
 declaration order, `while` counting loops, `with nogil:` grouping and helper names do not enter;
 a change of the loop structure, of an index expression, of the arithmetic type of a temporary, of a
 buffer option or of the validation does, and makes this fail (flagging the model). -/
